@@ -94,7 +94,7 @@ def run(tier):
     stems = ["in", "inp", "input", "input-file", "input-format", "out", "output", "output-dir", "v", "ver", "verbose", "version",
              "n", "no", "num", "number", "name", "names"]
     blocks = []
-    ntab = 150 if tier == "quick" else 4000
+    ntab = 150 if tier == "quick" else 1500
     for _ in range(ntab):
         k = g.randint(2, 12)
         keys = []
